@@ -32,7 +32,7 @@ CHECKS = {
             "DESIGN.md §4 C08"),
     "C09": ("model_checking", E1,
             "explicit-state BFS for soundness on every reachable healthy state + exhaustive enumeration of corruption subsets on three base states against an independent reference differ/repairer",
-            "On every reachable state of the kitchen-sink exploration (depth 3/4) - committed, and uncommitted inside the transaction that just executed the operation - check-only and fix runs must report nothing and change nothing. On three base states (person ids one a prefix of the other) ALL subsets of size <= 2 (thorough: 3) of 27 raw-bucket corruption atoms (unique: missing/dangling/wrong-target/stale; set: missing/extra/dangling id, empty key, missing key, stray key; fk: missing/extra/dangling back-reference, dangling reference nullable and not, null in non-nullable; link: one-sided either side, dangling; genuine unique conflict) are applied in an earlier transaction and in the same transaction as the fix: check-only reports every item of the reference diff and leaves the image unchanged, the fix run reaches the reference-repaired image, the re-check reports only unfixable conflicts and changes nothing.",
+            "On every reachable state of the kitchen-sink exploration (depth 3/4) - committed, and uncommitted inside the transaction that just executed the operation - check-only and fix runs must report nothing and change nothing. On three base states (person ids one a prefix of the other) ALL subsets of size <= 2 (thorough: 3) of 27 raw-bucket corruption atoms (unique: missing/dangling/wrong-target/stale; set: missing/extra/dangling id, empty key, missing key, stray key; fk: missing/extra/dangling back-reference, dangling reference nullable and not, null in non-nullable; link: one-sided either side, dangling; genuine unique conflict) are applied in an earlier transaction and in the same transaction as the fix: check-only reports every item of the reference diff and leaves the image unchanged, the fix run reaches the reference-repaired image, the re-check reports only unfixable conflicts and changes nothing. Foreign-key CONSTRAINTS (AddFkConstraint, 4 wirings) have their own pass: all subsets of {dangling reference, second dangling reference, null in the field} x earlier/same transaction.",
             "Reports are matched by the ids/values they mention; extra reports on corrupted databases are not judged; empty link buckets created by reading links and zero-length vs typed-nil null values are normalised.",
             "DESIGN.md §4 C09"),
     "C13": ("exploration", E2,
